@@ -12,9 +12,10 @@ import corechecks
 THEOREMS = ['C10_oneBatch', 'C10_counterOnlyThere', 'C10_support']
 RUN_THEOREMS = ['C10_noBatchBeyond', 'C10_budget', 'C10_success']
 MODULE = [('NautilusVerif.Properties.C10', THEOREMS), ('NautilusVerif.Properties.C10Run', RUN_THEOREMS),
+          ('NautilusVerif.Properties.CoreRun', ['Run_phase', 'C10_run_budget', 'C10_run_noBatchBeyond', 'C10_run_return', 'C10_run_fill']),
           ('NautilusVerif.Properties.C05Tie', ['C05_run_skeleton'])]
 FILES = ['nautilus/sampler.py']
-INVARIANTS = ['aligned']
+INVARIANTS = ['aligned', 'run']
 
 
 def run(chk):
